@@ -271,6 +271,22 @@ fn one_history(rep: &mut Report, rng: &mut Rng, case_no: u64, nops: usize, every
         // (3) further appends continue the numbering
         {
             let (_l, st) = open(&d, &w);
+            // (3a) the store is usable again as a client finds it: the default thread the restarted
+            // authority hands out accepts a message, and every thread it lists exists in the log
+            match st.ensure_default() {
+                Ok(t) => {
+                    if let Err(e) = st.append_message(&t, "user".into(), "cli".into(), "to the default thread after restart".into()) {
+                        rep.oracle_failure(&format!("C05|default-thread-unusable-after-crash|{}", s.point), &format!("crash at {class}: after the restart the default thread {t} refuses a message: {e}"), case.clone());
+                    }
+                }
+                Err(e) => rep.oracle_failure(&format!("C05|default-thread-unusable-after-crash|{}", s.point), &format!("crash at {class}: after the restart ensure_default fails: {e}"), case.clone()),
+            }
+            let in_log = threads_in(&lp);
+            for meta in st.list() {
+                if !in_log.contains(&meta.continuity_id) {
+                    rep.oracle_failure(&format!("C05|listed-thread-not-in-the-log|{}", s.point), &format!("crash at {class}: after the restart the store lists thread {} which has no frame in the log", meta.continuity_id), case.clone());
+                }
+            }
             for t in &threads {
                 let _ = st.append_message(t, "user".into(), "cli".into(), "after restart 1".into());
                 let _ = ripd::verif_export::continuities::append_cursor_updated(&st, t, "openresponses", None, None, None, "set", None);
